@@ -95,6 +95,10 @@ func (c07) Plan(tier string, seed int64) []core.Scenario {
 	for i := range out {
 		out[i].Seed = seed*32452843 + int64(i)
 	}
+	// streams of several connections of one process forwarded at the same time, next to unary traffic
+	for i := 0; i < 2; i++ {
+		out = append(out, core.Sc("multi-conn").WithN("conns", 4+4*i).WithN("len", 3000).WithN("noise", i))
+	}
 	// single-stall pair enumeration on a healthy connection (streams judged here, calls in C02); the quick
 	// sample differs from C02's
 	out = append(out, planStallPairs(tier, seed+1000003, "streams")...)
@@ -120,6 +124,8 @@ func (p c07) Run(sc core.Scenario) core.Result {
 		p.subBehindBig(sc, r)
 	case "stallpair":
 		runStallPair(sc, r)
+	case "multi-conn":
+		p.multiConn(sc, r)
 	}
 	return r.Result()
 }
@@ -569,4 +575,73 @@ func (c07) w6(sc core.Scenario, r *core.R) {
 	r.Obs("values_received", int64(g1.n()+g2.n()))
 	r.Sig(core.Log.Signature())
 	r.Sample(map[string]interface{}{"window": "value forward parked while another channel registers", "variant": v})
+}
+
+// multiConn: several websocket connections to one server in one process; on each, two streams are forwarded
+// while unary calls keep the connection's writer busy. Every stream must be complete, in order, free of
+// values of any other stream (of this or another connection), and closed.
+func (c07) multiConn(sc core.Scenario, r *core.R) {
+	env := NewEnv(EnvOpt{NoProxy: true})
+	defer env.Shutdown()
+	defer noisePolicy(sc).Install()()
+	nc, ln := sc.I("conns"), sc.I("len")
+	bg := context.Background()
+	type st struct {
+		tok string
+		g   *got
+	}
+	var mu sync.Mutex
+	var all []st
+	var wg sync.WaitGroup
+	var stop int32
+	var echoes, echoBad int64
+	for c := 0; c < nc; c++ {
+		cl, err := env.NewClient(ClientOpt{})
+		if err != nil {
+			r.Inconclusive("client: %v", err)
+			return
+		}
+		for k := 0; k < 2; k++ {
+			t := Tok(fmt.Sprintf("m%d", c%10))
+			ch, err := cl.Sub(bg, t, ln, svc.SGoroutine)
+			if err != nil {
+				r.Violate("subscribe-failed", "connection %d: %v", c, err)
+				return
+			}
+			mu.Lock()
+			all = append(all, st{t, drainItems(ch, 0, -1, nil)})
+			mu.Unlock()
+		}
+		wg.Add(1)
+		go func(cl *Client) {
+			defer wg.Done()
+			for atomic.LoadInt32(&stop) == 0 {
+				t := Tok("e")
+				v, err := cl.Echo(bg, t, "pad-pad-pad-pad-pad-pad-pad-pad")
+				atomic.AddInt64(&echoes, 1)
+				if err != nil || v != svc.Reply(t) {
+					atomic.AddInt64(&echoBad, 1)
+				}
+			}
+		}(cl)
+	}
+	for i, s := range all {
+		s := s
+		if !core.WaitProgress(s.g.done, core.Grace, func() int64 { return int64(s.g.n()) }) {
+			r.Violate("stream-not-closed", "stream %d (%s) of %d on %d connections stalled after %d of %d values", i, s.tok, len(all), nc, s.g.n(), ln)
+			continue
+		}
+		checkSeq(r, "multi-conn", s.tok, s.g.snapshot(), ln, true)
+	}
+	atomic.StoreInt32(&stop, 1)
+	done := make(chan struct{})
+	go func() { wg.Wait(); close(done) }()
+	core.WaitCh(done, core.Grace)
+	if b := atomic.LoadInt64(&echoBad); b > 0 {
+		r.Violate("unary-disturbed", "%d of %d unary calls made next to the streams failed or returned a foreign value", b, atomic.LoadInt64(&echoes))
+	}
+	r.Key(fmt.Sprintf("multi-conn conns=%d", nc), true)
+	r.Obs("values_received", int64(len(all)*ln))
+	r.Obs("calls", atomic.LoadInt64(&echoes))
+	r.Sample(map[string]interface{}{"scenario": "streams on several connections at once", "connections": nc, "streams": len(all), "values_per_stream": ln, "unary_calls_meanwhile": atomic.LoadInt64(&echoes)})
 }
